@@ -157,6 +157,10 @@ def verify_function(reg, frontend, con, prop=None):
                 else:
                     ty = con.types.get(p)
                 if ty is None:
+                    if p in con.options.get("unused_params", ()):
+                        # a parameter the body never reads (callers pass anything): any use makes the function unsupported
+                        st.env[p] = PyVal("opaque", name=p)
+                        continue
                     raise Unsupported("parameter %s has no declared type" % p)
                 st.env[p] = it.fresh_value(ty, p, st)
             for g, ty in con.ghost_params.items():
